@@ -206,7 +206,7 @@ def run(ctx):
     else:
         side = json.load(open(side_path))
 
-    # 2. which state is the tree in?  (Coq computes the undisciplined root pairs of the summary)
+    # 2. Coq computes the discipline on the summary; when it fails, the Gallina search names the undisciplined root pairs
     pr = None
     if okt:
         V.gen_base()
